@@ -47,3 +47,19 @@ Definition check_C07 (sorting : bool) (laddrs uaddrs : list nat) (s : shape) (go
   let am := mkam (fun l => nth l laddrs 0) (fun u => nth u uaddrs 0) in
   let ok := Bool.eqb (model_try_new sorting am s) got in
   mkv ok ok (mon_C07 s got).
+
+(* ---------------------------------------------------------------- C08: one arrangement-independent order *)
+(* history: t: get, lock/read c1, unlock; t2: get, lock/read c2, unlock *)
+Definition ps_C08 : projspec := mkps ev_is_blocking_raw false false false.
+
+Definition mon_C08 (sc : scen) (obs : list callobs) : bool :=
+  match obs with
+  | [_; oa; _; _; ob; _] =>
+      let la := blk_locks (co_evs oa) in
+      let lb := blk_locks (co_evs ob) in
+      rcode_eqb (co_ret oa) ROk && rcode_eqb (co_ret ob) ROk &&
+      list_eqb Nat.eqb (filter (fun l => memb l lb) la) (filter (fun l => memb l la) lb)
+  | _ => false
+  end.
+
+Definition check_C08 := check_with ps_C08 mon_C08.
